@@ -61,6 +61,9 @@ def make_body(flav_name, cls_names, banks_per_slot, falsify=False):
             # the same object re-targeted at another application and serialised again (app_id setter)
             sub.app_id = app2
             raw2 = bytes(sub)
+            # and through instantiate(), which every SDK flush calls: it rebuilds each instruction from its `operands` list
+            sub.instantiate(app2, {})
+            raw3 = bytes(sub)
         except PathAbort:
             raise
         except Exception as e:  # noqa
@@ -82,6 +85,10 @@ def make_body(flav_name, cls_names, banks_per_slot, falsify=False):
         obs.append(Ob("reserialize_after_app_id_change",
                       z3.And(z3.BoolVal(len(got2) == len(ref2)), *[g == h for g, h in zip(got2, ref2)]),
                       dict(site0, mnemonic="<header>")))
+        got3 = byte_terms(raw3)
+        obs.append(Ob("serialize_after_instantiate",
+                      z3.And(z3.BoolVal(len(got3) == len(ref2)), *[g == h for g, h in zip(got3, ref2)]),
+                      dict(site0, mnemonic=refs[0][0])))
         # read side: bytes produced by the *reference* encoder (another implementation) must be read back
         # by the real decoder as the intended instructions
         if codec.MODEL:
